@@ -14,12 +14,23 @@ import Glom.Model.C15Env
   targets, sub-specs, item counts and histories (`h` is any heap reached by
   earlier evaluations, `Ctx h0 h`), with no size bound.
 
+  The target's iteration is the handler the registry names AT THE TIME OF THE CALL:
+  every evaluation theorem is for an arbitrary handler table `env.lk` (class → handler),
+  and the history theorems (`c15_memo_invisible`, `c15_history`, `c15_history_checks`,
+  `c15_register_immediate`) relate the code that exists — `get_handler` with its memo,
+  `register` — to the memo-free answer of the tables of the moment, for every class
+  hierarchy `H`, every registry and every interleaving of evaluations and registrations.
+
   Standing hypotheses (each with a satisfiability `example` and, where forced
   by the proof, the counter-example without it, at the end of the file):
     closedHeap h0         no dangling references, no chain objects among the inputs
     target / sub-spec keys point into h0
     init allocates        `init()` returns a new object or an immutable immediate
-    WF env                the extracted facts (c15_facts_wf, re-checked every run)
+                          (`InitOK`: … and a copying factory copies a list / tuple / dict of h0)
+    WFConv env            the extracted `except` clauses (c15_facts_wf, re-checked every run)
+    WF env                … and chain objects are iterated with `iter` (flatten(levels ≥ 2) only)
+    CacheOK H r           the registry's memo holds first-lookup answers only (true of every
+                          registry reached from a fresh one: `c15_reachable_cache_ok`)
 -/
 namespace Glom.Props.C15
 open Glom Glom.C15
@@ -31,31 +42,35 @@ open Glom Glom.C15
     GlomError; `init()` is called inside `_fold` (never in a constructor of Fold,
     Sum, Flatten); the three `_fold` bodies, the constructor defaults and
     `flatten()`'s spec construction have the shape the model transcribes. -/
-theorem c15_facts_wf : WF genEnv = true ∧ WFSrc genSrc = true := by decide
+theorem c15_facts_wf : WFConv genEnv = true ∧ WFSrc genSrc = true ∧
+    defaultsOK (pureLk C13.builtinHier (genReg C13.builtinHier)) = true := by decide
 
 /-- the environment the correspondence driver evaluates the checker in (the documented
-    behaviour, hard-coded) is well-formed too: every theorem below applies to it -/
-theorem c15_spec_env_wf : WF specEnv = true := by decide
+    behaviour, hard-coded) is well-formed too, and on the builtin hierarchy the registry built
+    from the extracted registration sequences IS the documented one -/
+theorem c15_spec_env_wf : WFConv specEnv = true ∧
+    defaultsOK (pureLk C13.builtinHier (specReg C13.builtinHier)) = true ∧
+    genReg C13.builtinHier = specReg C13.builtinHier := by decide
 
 /-- **Fold = functools.reduce.**  `Fold(sub, init, op)` evaluated on any heap `h`
     reached by earlier evaluations: with `items = iterate(glom(target, sub))` and
     `sv0 = init()` as a value, the outcome is `List.foldlM` (= `functools.reduce` in the
     exception monad) of the operator over the items — the same error, the same
     immediate, or an object at a NEW address holding exactly the reduced content. -/
-theorem c15_fold_eq_foldl (env : Env) (hwf : WF env = true) {h0 h : Heap} (c : Ctx h0 h)
-    (sub : List Val) (init : Init) (op : Op) (hinit : init.allocates = true) (target : Val)
+theorem c15_fold_eq_foldl (env : Env) (hwf : WFConv env = true) {h0 h : Heap} (c : Ctx h0 h)
+    (sub : List Val) (init : Init) (op : Op) (hinit : InitOK h0 init) (target : Val)
     (hsub : ∀ k ∈ sub, Val.inb h0.length k = true) (ht : Val.inb h0.length target = true)
     (items : List Val) (hitems : refItems env h0 sub target = .ok items)
     (sv0 : SV) (hsv : initSV h0 init = some sv0) :
     let out := glomit env (mkFold sub init op) h target
-    match items.foldlM (foldStep op h0) sv0 with
+    match items.foldlM (foldStep (pyOp op) h0) sv0 with
     | .error e => out.1 = .error e
     | .ok (.imm v) => out.1 = .ok v
     | .ok (.cell o) => ∃ a, out.1 = .ok (.ref a) ∧ h.length ≤ a ∧ out.2[a]? = some o := by
-  have hg := (glomit_spec c env (WF_parts hwf).1 (mkFold sub init op) hinit hsub ht).2
+  have hg := (glomit_spec c env (WFConv_parts hwf).1 (mkFold sub init op) hinit hsub ht).2
   simp only [refSpec, mkFold, hitems, refKind, withInit, hsv, refReduce_eq_foldlM] at hg
   simp only [mkFold]
-  cases hr : items.foldlM (foldStep op h0) sv0 with
+  cases hr : items.foldlM (foldStep (pyOp op) h0) sv0 with
   | error e => rw [hr] at hg; exact hg
   | ok sv =>
     rw [hr] at hg
@@ -64,13 +79,13 @@ theorem c15_fold_eq_foldl (env : Env) (hwf : WF env = true) {h0 h : Heap} (c : C
     | cell o => obtain ⟨a, h1, h2, h3, _⟩ := hg; exact ⟨a, h1, h2, h3⟩
 
 /-- **Sum = sum.**  On int / bool items `Sum()` returns their integer sum. -/
-theorem c15_sum (env : Env) (hwf : WF env = true) {h0 h : Heap} (c : Ctx h0 h)
+theorem c15_sum (env : Env) (hwf : WFConv env = true) {h0 h : Heap} (c : Ctx h0 h)
     (sub : List Val) (target : Val)
     (hsub : ∀ k ∈ sub, Val.inb h0.length k = true) (ht : Val.inb h0.length target = true)
     (items : List Val) (hitems : refItems env h0 sub target = .ok items)
     (is : List Int) (hints : allInts items = some is) :
     (glomit env (mkSum sub .int) h target).1 = .ok (.int is.sum) := by
-  have hg := (glomit_spec c env (WF_parts hwf).1 (mkSum sub .int) rfl hsub ht).2
+  have hg := (glomit_spec c env (WFConv_parts hwf).1 (mkSum sub .int) (InitOK.plain h0 rfl rfl rfl) hsub ht).2
   simp only [refSpec, mkSum, hitems, refKind, withInit, initSV, reduce_iadd_int h0 items is 0 hints,
     RefRes.ofSV, Int.zero_add] at hg
   exact hg.1
@@ -78,7 +93,7 @@ theorem c15_sum (env : Env) (hwf : WF env = true) {h0 h : Heap} (c : Ctx h0 h)
 /-- **Flatten = chain.from_iterable.**  Eager `Flatten()` returns a NEW list holding the
     concatenation of the items' own items (the very same element objects), or raises
     TypeError when an item is not iterable. -/
-theorem c15_flatten_eq_join (env : Env) (hwf : WF env = true) {h0 h : Heap} (c : Ctx h0 h)
+theorem c15_flatten_eq_join (env : Env) (hwf : WFConv env = true) {h0 h : Heap} (c : Ctx h0 h)
     (sub : List Val) (target : Val)
     (hsub : ∀ k ∈ sub, Val.inb h0.length k = true) (ht : Val.inb h0.length target = true)
     (items : List Val) (hitems : refItems env h0 sub target = .ok items) :
@@ -86,7 +101,8 @@ theorem c15_flatten_eq_join (env : Env) (hwf : WF env = true) {h0 h : Heap} (c :
     match joinWith (rawIter1 h0) items with
     | some ys => ∃ a, out.1 = .ok (.ref a) ∧ h.length ≤ a ∧ out.2[a]? = some (.list "list" ys)
     | none => out.1 = .error typeErr := by
-  have hg := (glomit_spec c env (WF_parts hwf).1 (mkFlatten sub (.init .list)) rfl hsub ht).2
+  have hg := (glomit_spec c env (WFConv_parts hwf).1 (mkFlatten sub (.init .list))
+    (InitOK.plain h0 rfl rfl rfl) hsub ht).2
   have hin := refItems_inb c.closed env hsub ht hitems
   simp only [refSpec, mkFlatten, hitems, refKind, withInit, initSV, reduce_iadd_list h0 items [],
     joinWith_raw_eq c.closed hin, Bool.false_eq_true, if_false, List.nil_append] at hg
@@ -128,7 +144,8 @@ theorem c15_levels (env : Env) (hwf : WF env = true) {h0 h : Heap} (c : Ctx h0 h
     | some ys => ∃ a, out.1 = .ok (.ref a) ∧ h.length ≤ a ∧ out.2[a]? = some (.list "list" ys)
     | none => out.1 = .error typeErr := by
   obtain ⟨hcatch, hchain, _⟩ := WF_parts hwf
-  have hg := (flattenFn_spec c env hchain hcatch sub (.init .list) ((n : Int) + 1) rfl hsub ht).2
+  have hg := (flattenFn_spec c env (levels := (n : Int) + 1) (fun _ => hchain) hcatch sub (.init .list)
+    (InitOK.plain h0 rfl rfl rfl) hsub ht).2
   have h0l : (((n : Int) + 1) == 0) = false := by
     simp only [beq_eq_false_iff_ne, ne_eq]; omega
   have hneg : ¬ ((n : Int) + 1) < 0 := by omega
@@ -163,7 +180,7 @@ theorem c15_levels_negative (env : Env) (sub : List Val) (init : InitArg) (l : I
 /-- **Merge: last writer wins.**  `Merge()` / `merge()` over dict items returns a NEW dict
     in which every key maps to the value of the LAST pair (over all items, in order)
     carrying that key. -/
-theorem c15_merge_last_wins (env : Env) (hwf : WF env = true) {h0 h : Heap} (c : Ctx h0 h)
+theorem c15_merge_last_wins (env : Env) (hwf : WFConv env = true) {h0 h : Heap} (c : Ctx h0 h)
     (sub : List Val) (target : Val)
     (hsub : ∀ k ∈ sub, Val.inb h0.length k = true) (ht : Val.inb h0.length target = true)
     (items : List Val) (hitems : refItems env h0 sub target = .ok items)
@@ -171,7 +188,7 @@ theorem c15_merge_last_wins (env : Env) (hwf : WF env = true) {h0 h : Heap} (c :
     let out := mergeFn env sub .dict .none h target
     ∃ a es, out.1 = .ok (.ref a) ∧ h.length ≤ a ∧ out.2[a]? = some (.dict "dict" es) ∧
       ∀ k, dictLookup es k = lastPair ds.flatten k := by
-  have hg := (mergeFn_spec c env (WF_parts hwf).1 sub .dict .none rfl hsub ht).2
+  have hg := (mergeFn_spec c env (WFConv_parts hwf).1 sub .dict .none (InitOK.plain h0 rfl rfl rfl) hsub ht).2
   have hop : refMergeOp h0 .dict .none = .ok (.update "dict") := rfl
   simp only [refMerge, hop, refSpec, hitems, refKind, withInit, initSV,
     reduce_update_dicts h0 "dict" (by decide) items ds [] hds, RefRes.ofSV] at hg
@@ -185,20 +202,20 @@ theorem c15_merge_last_wins (env : Env) (hwf : WF env = true) {h0 h : Heap} (c :
     pre-existing object exactly as it was. -/
 theorem c15_frame (env : Env) (hwf : WF env = true) (h0 : Heap) (p : Prog) (targets : List Val)
     (hcase : wfCase h0 targets = true) (hp : (progVals p).all (Val.inb h0.length) = true)
-    (hinit : p.initAllocates = true) :
+    (hinit : p.initAllocates = true) (hw : p.initWF h0 = true) :
     ∀ a, a < h0.length → (runProg env p targets h0).2[a]? = h0[a]? := by
   simp only [wfCase, Bool.and_eq_true] at hcase
-  exact (runProg_spec env hwf h0 hcase.1 p (allInb hp) hinit targets (allInb hcase.2)).1.2
+  exact (runProg_spec env hwf h0 hcase.1 p ⟨allInb hp, hinit, hw⟩ targets (allInb hcase.2)).1.2
 
 /-- **Fresh.**  A container a spec object returns did not exist before this evaluation:
     its address is beyond everything allocated so far — the inputs AND the results of
     all earlier evaluations of the same spec object. -/
-theorem c15_fresh (env : Env) (hwf : WF env = true) {h0 h : Heap} (c : Ctx h0 h)
-    (s : FoldSpec) (hinit : s.init.allocates = true) (target : Val)
+theorem c15_fresh (env : Env) (hwf : WFConv env = true) {h0 h : Heap} (c : Ctx h0 h)
+    (s : FoldSpec) (hinit : InitOK h0 s.init) (target : Val)
     (hsub : ∀ k ∈ s.sub, Val.inb h0.length k = true) (ht : Val.inb h0.length target = true)
     (a : Nat) (hres : (glomit env s h target).1 = .ok (.ref a)) :
     h.length ≤ a ∧ a < (glomit env s h target).2.length := by
-  have hg := (glomit_spec c env (WF_parts hwf).1 s hinit hsub ht).2
+  have hg := (glomit_spec c env (WFConv_parts hwf).1 s hinit hsub ht).2
   cases hr : refSpec env h0 s target with
   | err e => rw [hr] at hg; simp only [ResRel] at hg; rw [hg] at hres; cases hres
   | imm v =>
@@ -212,8 +229,8 @@ theorem c15_fresh (env : Env) (hwf : WF env = true) {h0 h : Heap} (c : Ctx h0 h)
 
 /-- **Independence.**  Evaluating the same spec object twice: the second result is a
     different object and the second evaluation leaves the first result untouched. -/
-theorem c15_independent (env : Env) (hwf : WF env = true) (h0 : Heap) (hc : closedHeap h0 = true)
-    (s : FoldSpec) (hinit : s.init.allocates = true) (t1 t2 : Val)
+theorem c15_independent (env : Env) (hwf : WFConv env = true) (h0 : Heap) (hc : closedHeap h0 = true)
+    (s : FoldSpec) (hinit : InitOK h0 s.init) (t1 t2 : Val)
     (hsub : ∀ k ∈ s.sub, Val.inb h0.length k = true)
     (ht1 : Val.inb h0.length t1 = true) (ht2 : Val.inb h0.length t2 = true) (a1 a2 : Nat) :
     let e1 := glomit env s h0 t1
@@ -221,20 +238,20 @@ theorem c15_independent (env : Env) (hwf : WF env = true) (h0 : Heap) (hc : clos
     e1.1 = .ok (.ref a1) → e2.1 = .ok (.ref a2) → a1 ≠ a2 ∧ e2.2[a1]? = e1.2[a1]? := by
   intro e1 e2 hr1 hr2
   have c0 := Ctx.base hc
-  have g1 := glomit_spec c0 env (WF_parts hwf).1 s hinit hsub ht1
+  have g1 := glomit_spec c0 env (WFConv_parts hwf).1 s hinit hsub ht1
   have c1 : Ctx h0 e1.2 := c0.step (Nat.le_refl _) g1.1
   have f1 : h0.length ≤ a1 ∧ a1 < e1.2.length := c15_fresh env hwf c0 s hinit t1 hsub ht1 a1 hr1
   have f2 : e1.2.length ≤ a2 ∧ a2 < e2.2.length := c15_fresh env hwf c1 s hinit t2 hsub ht2 a2 hr2
-  have g2 := glomit_spec c1 env (WF_parts hwf).1 s hinit hsub ht2
+  have g2 := glomit_spec c1 env (WFConv_parts hwf).1 s hinit hsub ht2
   exact ⟨by omega, g2.1.2 a1 f1.2⟩
 
 /-- **FoldError.**  A target without a registered `iterate` (int, str, None, a plain object …)
     makes every Fold / Sum / Flatten / Merge raise FoldError — a GlomError — and nothing
     is allocated or touched. -/
-theorem c15_fold_error (env : Env) (hwf : WF env = true) (s : FoldSpec) (h : Heap) (target t : Val)
+theorem c15_fold_error (env : Env) (hwf : WFConv env = true) (s : FoldSpec) (h : Heap) (target t : Val)
     (hsub : evalSub h s.sub target = .ok t) (hun : targetIter env h t = .error .unregistered) :
     glomit env s h target = (.error .fold, h) ∧ errR env .fold = .err "FoldError" true := by
-  obtain ⟨hcatch, _, hglom⟩ := WF_parts hwf
+  obtain ⟨hcatch, _, hglom⟩ := WFConv_parts hwf
   constructor
   · simp [glomit, hsub, hun, convertIterErr, hcatch]
   · simp [errR, hglom]
@@ -244,15 +261,113 @@ theorem c15_fold_error (env : Env) (hwf : WF env = true) (s : FoldSpec) (h : Hea
     observation passes. -/
 theorem c15_model_checks (env : Env) (hwf : WF env = true) (h0 : Heap) (p : Prog) (targets : List Val)
     (hcase : wfCase h0 targets = true) (hp : (progVals p).all (Val.inb h0.length) = true)
-    (hinit : p.initAllocates = true) :
+    (hinit : p.initAllocates = true) (hw : p.initWF h0 = true) :
     checkC15 env h0 p targets (observe env h0.length (runProg env p targets h0)) = true := by
   have hcase' := hcase
   simp only [wfCase, Bool.and_eq_true] at hcase'
-  have hs := runProg_spec env hwf h0 hcase'.1 p (allInb hp) hinit targets (allInb hcase'.2)
+  have hs := runProg_spec env hwf h0 hcase'.1 p ⟨allInb hp, hinit, hw⟩ targets (allInb hcase'.2)
   simp only [checkC15, hinit, observe, hs.2, take_of_frame rfl hs.1]
   simp
 
+/-! ### the target's iteration is the handler registered AT THE TIME OF THE CALL -/
+
+/-- **The memo is invisible.**  One `Fold.glomit` against the registry — `get_handler` consults and
+    writes the memo `_type_cache` — is the evaluation under the handler table the registry's
+    TABLES denote at that moment (`pureLk`: the answer a first lookup would give); it changes the
+    memo only, and keeps it consistent.  For every class hierarchy, registry state and spec. -/
+theorem c15_memo_invisible (H : Hier) (env : Env) (s : FoldSpec) (r : Reg) (hc : CacheOK H r)
+    (h : Heap) (target : Val) :
+    (glomitR H env s r h target).1 = glomit (envOf H env r) s h target ∧
+    C13.EqC (glomitR H env s r h target).2 r ∧ CacheOK H (glomitR H env s r h target).2 :=
+  glomitR_bridge H env s r h target hc
+
+/-- … the same for the module-level `flatten()` (every level's lookup goes through the memo) and
+    `merge()`. -/
+theorem c15_memo_invisible_fn (H : Hier) (env : Env) (r : Reg) (hc : CacheOK H r) (h : Heap) (target : Val)
+    (sub : List Val) :
+    (∀ (init : InitArg) (l : Int),
+      (flattenFnR H env sub init l r h target).1 = flattenFn (envOf H env r) sub init l h target ∧
+      C13.EqC (flattenFnR H env sub init l r h target).2 r ∧ CacheOK H (flattenFnR H env sub init l r h target).2) ∧
+    (∀ (init : Init) (op : MergeOpArg),
+      (mergeFnR H env sub init op r h target).1 = mergeFn (envOf H env r) sub init op h target ∧
+      C13.EqC (mergeFnR H env sub init op r h target).2 r ∧ CacheOK H (mergeFnR H env sub init op r h target).2) :=
+  ⟨fun init l => flattenFnR_bridge H env sub init l r h target hc,
+   fun init op => mergeFnR_bridge H env sub init op r h target hc⟩
+
+/-- **A registration takes effect for the very next evaluation**, exact or not, whatever was
+    evaluated (and memoised) before: after `register(cls, iterate=hn, exact=e)` the handler table
+    names `hn` for `cls`, and `register(cls, iterate=False)` makes instances of `cls`
+    unregistered targets (FoldError). -/
+theorem c15_register_immediate (H : Hier) (r : Reg) (cls : String) (e : Bool) (kw : List (String × Option String))
+    (hd : Option String) (hk : C13.odGet "iterate" kw = some hd) :
+    pureLk H (C13.register H r cls e kw) cls =
+      match hd with
+      | some hn => .ok hn
+      | none => .error .unregistered := by
+  simp only [pureLk, resolve_register_self H r cls e kw "iterate" hd hk]
+  cases hd <;> rfl
+
+/-- every registry a process starts from has a consistent (empty) memo, and histories keep it so:
+    the final registry of any history differs from "the registrations alone" in its memo only -/
+theorem c15_reachable_cache_ok (H : Hier) (S : C13.Setup) (d : Bool) (env : Env) (p : Prog)
+    (hm : p.isMerge = false) (events : List Event) (h : Heap) :
+    CacheOK H (C13.freshReg H S d) ∧
+    C13.EqC (runProgR H env p events (C13.freshReg H S d) h).2.2 (events.foldl (regAfter H) (C13.freshReg H S d)) ∧
+    CacheOK H (runProgR H env p events (C13.freshReg H S d) h).2.2 := by
+  have h0 : CacheOK H (C13.freshReg H S d) := CacheOK.of_empty (freshReg_cache H S d)
+  rw [runProgR_eq H env p hm]
+  exact ⟨h0, evalEvents_reg (progEvalR_bridge H env p) events _ h h0⟩
+
+/-- **Histories.**  One spec object, any interleaving of evaluations and `register(…)` calls on
+    the registry the evaluations use (the default registry, a Glommer's), any class hierarchy:
+    no pre-existing object changes, and an observer sees, for EVERY evaluation, exactly the
+    reference reduction over the iteration the registry's tables name at that moment — the
+    registrations made so far, nothing remembered from earlier lookups. -/
+theorem c15_history (H : Hier) (env : Env) (hconv : WFConv env = true) (h0 : Heap) (p : Prog) (events : List Event)
+    (hcase : wfCase h0 (Event.targets events) = true) (hp : (progVals p).all (Val.inb h0.length) = true)
+    (hinit : p.initAllocates = true) (hw : p.initWF h0 = true)
+    (r : Reg) (hcr : CacheOK H r)
+    (hchain : p.usesChain = false ∨ chainIterAlong H env events r = true) :
+    (∀ a, a < h0.length → (runProgR H env p events r h0).2.1[a]? = h0[a]?) ∧
+    observeAll env h0.length (runProgR H env p events r h0).2.1 [] (runProgR H env p events r h0).1 =
+      expectAll H env h0 p events r := by
+  simp only [wfCase, Bool.and_eq_true] at hcase
+  obtain ⟨hcatch, hiter, _⟩ := WFConv_parts hconv
+  have := runProgR_spec H env hconv h0 hcase.1 p ⟨allInb hp, hinit, hw⟩ events (allInb hcase.2) r hcr
+    (histOK_of_bool hcatch hiter events r hchain)
+  exact ⟨this.1.2, this.2⟩
+
+/-- **Checker theorem for histories** — the form in which the property is evaluated on the
+    implementation's observation by the correspondence driver: the observation of the model
+    (memo and all) passes the memo-free checker. -/
+theorem c15_history_checks (H : Hier) (env : Env) (hconv : WFConv env = true) (h0 : Heap) (p : Prog)
+    (events : List Event)
+    (hcase : wfCase h0 (Event.targets events) = true) (hp : (progVals p).all (Val.inb h0.length) = true)
+    (hinit : p.initAllocates = true) (hw : p.initWF h0 = true)
+    (r : Reg) (hcr : CacheOK H r)
+    (hchain : p.usesChain = false ∨ chainIterAlong H env events r = true) :
+    let out := runProgR H env p events r h0
+    checkC15R H env r h0 p events (observe env h0.length (out.1, out.2.1)) = true := by
+  have hs := c15_history H env hconv h0 p events hcase hp hinit hw r hcr hchain
+  have hf : Frame h0.length h0 (runProgR H env p events r h0).2.1 := by
+    simp only [wfCase, Bool.and_eq_true] at hcase
+    obtain ⟨hcatch, hiter, _⟩ := WFConv_parts hconv
+    exact (runProgR_spec H env hconv h0 hcase.1 p ⟨allInb hp, hinit, hw⟩ events (allInb hcase.2) r hcr
+      (histOK_of_bool hcatch hiter events r hchain)).1
+  simp only [checkC15R, hinit, observe, hs.2, take_of_frame rfl hf]
+  simp
+
 /-! ### non-vacuity: concrete inputs meet every hypothesis; counter-examples without them -/
+
+/-- the handler table of the default registrations, written out (it meets `defaultsOK`, as the
+    registry built from the extracted registration sequences does: `c15_facts_wf`) -/
+private def exLk (c : String) : Except IterErr String :=
+  if ["list", "tuple", "dict", "OrderedDict", "set", "frozenset", "generator", "chain", "Acc"].contains c then .ok "iter"
+  else .error .unregistered
+
+private def exEnv : Env := { genEnv with lk := exLk }
+
+example : defaultsOK exEnv.lk = true ∧ WF exEnv = true := by decide
 
 /-- `L0 = [1, 2]`, `L1 = (3,)`, `D = {'k': 0}`, `T = [L0, L1, 'ab', D]`, `M = [{'a': 1}, {'a': 2, 'b': 3}]` -/
 private def exHeap : Heap :=
@@ -266,26 +381,26 @@ private def exHeap : Heap :=
 
 example : wfCase exHeap [.ref 3, .ref 3] = true := by decide
 example : Prog.initAllocates (.flatten [] (.init .list)) = true := by decide
-example : refItems genEnv exHeap [] (.ref 3) = .ok [.ref 0, .ref 1, .str "ab", .ref 2] := by decide
+example : refItems exEnv exHeap [] (.ref 3) = .ok [.ref 0, .ref 1, .str "ab", .ref 2] := by decide
 -- eager Flatten: a new list, the element objects themselves, str and dict iterated like Python does
-example : refSpec genEnv exHeap (mkFlatten [] (.init .list)) (.ref 3) =
+example : refSpec exEnv exHeap (mkFlatten [] (.init .list)) (.ref 3) =
     .new (.list "list" [.int 1, .int 2, .int 3, .str "a", .str "b", .str "k"]) := by decide
 -- evaluated twice on the same target: two different new objects (addresses 7 and 8), input untouched
-example : (runProg genEnv (.flatten [] (.init .list)) [.ref 3, .ref 3] exHeap).1 = [.ok (.ref 7), .ok (.ref 8)] := by
+example : (runProg exEnv (.flatten [] (.init .list)) [.ref 3, .ref 3] exHeap).1 = [.ok (.ref 7), .ok (.ref 8)] := by
   decide
-example : (runProg genEnv (.flatten [] (.init .list)) [.ref 3, .ref 3] exHeap).2.take 7 = exHeap := by decide
+example : (runProg exEnv (.flatten [] (.init .list)) [.ref 3, .ref 3] exHeap).2.take 7 = exHeap := by decide
 example : allInts [.int 1, .bool true, .int 5] = some [1, 1, 5] := by decide
 example : dictsOf exHeap [.ref 4, .ref 5] = some [[(.str "a", .int 1)], [(.str "a", .int 2), (.str "b", .int 3)]] := by
   decide
-example : (mergeFn genEnv [] .dict .none exHeap (.ref 6)).2[7]? = some (.dict "dict" []) ∧     -- test_init garbage
-    (mergeFn genEnv [] .dict .none exHeap (.ref 6)).2[8]? =
+example : (mergeFn exEnv [] .dict .none exHeap (.ref 6)).2[7]? = some (.dict "dict" []) ∧     -- test_init garbage
+    (mergeFn exEnv [] .dict .none exHeap (.ref 6)).2[8]? =
       some (.dict "dict" [(.str "a", .int 2), (.str "b", .int 3)]) := by decide
 example : joinN exHeap 2 [.ref 6] = some [.str "a", .str "a", .str "b"] := by decide
 -- targets without an `iterate` handler
-example : targetIter genEnv exHeap (.int 5) = .error .unregistered ∧
-    targetIter genEnv exHeap (.str "abc") = .error .unregistered ∧
-    targetIter genEnv exHeap .none = .error .unregistered ∧
-    targetIter genEnv [.inst "Obj" []] (.ref 0) = .error .unregistered := by decide
+example : targetIter exEnv exHeap (.int 5) = .error .unregistered ∧
+    targetIter exEnv exHeap (.str "abc") = .error .unregistered ∧
+    targetIter exEnv exHeap .none = .error .unregistered ∧
+    targetIter exEnv [.inst "Obj" []] (.ref 0) = .error .unregistered := by decide
 
 /-- Hypothesis "init allocates" is needed: `L = [1]; glom([L], Fold(T, init=lambda: L))`
     extends `L` with itself — the INPUT object is mutated and returned (the real glom
@@ -293,7 +408,7 @@ example : targetIter genEnv exHeap (.int 5) = .error .unregistered ∧
     hands out a shared object is the caller's aliasing, as with `functools.reduce`. -/
 theorem c15_shared_init_counterexample :
     let h0 : Heap := [.list "list" [.int 1], .list "list" [.ref 0]]
-    let out := runProg genEnv (.fold [] (.shared (.ref 0)) .iadd) [.ref 1] h0
+    let out := runProg exEnv (.fold [] (.shared (.ref 0)) .iadd) [.ref 1] h0
     out.1 = [.ok (.ref 0)] ∧ out.2[0]? = some (.list "list" [.int 1, .int 1]) ∧ out.2[0]? ≠ h0[0]? := by
   decide
 
@@ -304,8 +419,8 @@ theorem c15_shared_init_counterexample :
 theorem c15_closed_heap_counterexample :
     let h0 : Heap := [.list "list" [.ref 1]]
     closedHeap h0 = false ∧
-    (runProg genEnv (.flatten [] (.init .list)) [.ref 0] h0).1 = [.ok (.ref 1)] ∧
-    refSpec genEnv h0 (mkFlatten [] (.init .list)) (.ref 0) = .err typeErr := by
+    (runProg exEnv (.flatten [] (.init .list)) [.ref 0] h0).1 = [.ok (.ref 1)] ∧
+    refSpec exEnv h0 (mkFlatten [] (.init .list)) (.ref 0) = .err typeErr := by
   decide
 
 end Glom.Props.C15
